@@ -1,2 +1,2 @@
-/- C10 — theorems are being added. -/
-import DsdVerif.Model.World
+/- C10 — order / equality algebra: the theorems are in Props/C11Sets.lean (namespace Dsd.C11). -/
+import DsdVerif.Props.C11Sets
